@@ -1243,3 +1243,39 @@ def replay_known(name, witness):
         if case.label == label:
             return _replay(case.spec, mode)(witness)
     raise KeyError(label)
+
+
+# ------------------------------------------------------------------------------------------------ two conditions of the SAME kind
+@obligation(quick=90, thorough=200, partitions_quick=[f"kind == {k}" for k in range(4)],
+            what="| and & (and retry_any / retry_all) of two built-in exception-TYPE conditions of the same kind over different types - incl. the "
+                 "negated kinds, where not-A or not-B is not not-(A or B): the combination answers or / and of what the two answer on their own",
+            bounds={"kinds": "retry_if_exception_type / retry_if_not_exception_type / retry_unless_exception_type / retry_if_exception_cause_type",
+                    "types": "(ValueError) vs (KeyError) / (KeyError, TimeoutError)", "exceptions": "pool of 4", "spellings": 4})
+def ob_same_kind_type_conditions(kind: int, wide: bool, ei: int, sp: int) -> bool:
+    """
+    pre: 0 <= kind <= 3 and 0 <= ei <= 3 and 0 <= sp <= 3
+    post: _
+    """
+    def _fork(i: int, hi: int) -> int:
+        for v in range(hi):
+            if i == v:
+                return v
+        return hi
+
+    kind, ei, sp = _fork(kind, 3), _fork(ei, 3), _fork(sp, 3)
+    wide = True if wide else False
+    mk = [retry_if_exception_type, retry_if_not_exception_type, retry_unless_exception_type, retry_if_exception_cause_type][kind]
+    t2 = (KeyError, TimeoutError) if wide else KeyError
+    a, b = mk(ValueError), mk(t2)
+    err = _error_pool(ei)
+    v0, v1 = mk(ValueError)(err), mk(t2)(err)
+    if sp == 0:
+        comb, want = a | b, (v0 or v1)
+    elif sp == 1:
+        comb, want = retry_any(a, b), (v0 or v1)
+    elif sp == 2:
+        comb, want = a & b, (v0 and v1)
+    else:
+        comb, want = retry_all(a, b), (v0 and v1)
+    got = comb(err)
+    return isinstance(got, bool) and got == want
